@@ -218,6 +218,18 @@ func PrepareB(p *progen.Program, opts *BOptions) (dir string, err error) {
 		f.Close()
 	}
 	ctl := filepath.Join(dir, "ctl")
+	if opts.Dir != "" {
+		// a later incarnation on the same directory: its observations are
+		// collected separately from the earlier ones
+		for i := 1; ; i++ {
+			old := filepath.Join(ctl, fmt.Sprintf("obs.%d", i))
+			if _, err := os.Stat(old); err != nil {
+				os.Rename(filepath.Join(ctl, "obs"), old)
+				break
+			}
+		}
+		os.MkdirAll(filepath.Join(ctl, "obs"), 0o755)
+	}
 	os.Remove(filepath.Join(ctl, "fault.json"))
 	os.Remove(filepath.Join(ctl, "fault.fired"))
 	os.Remove(filepath.Join(ctl, "slow.json"))
@@ -282,8 +294,10 @@ func StartB(p *progen.Program, opts *BOptions) (*BRun, error) {
 	if opts.Strict != "" {
 		args = append(args, "--strict="+opts.Strict)
 	}
+	// jobmanagers/retry.json makes two automatic retries the default
+	args = append(args, "--autoretry="+strconv.Itoa(opts.AutoRetry))
 	if opts.AutoRetry > 0 {
-		args = append(args, "--autoretry="+strconv.Itoa(opts.AutoRetry), "--retry-wait=0")
+		args = append(args, "--retry-wait=0")
 	}
 	args = append(args, opts.ExtraArgs...)
 	cmd := exec.Command(filepath.Join(root, inst, "bin", "mrp"), args...)
@@ -344,7 +358,8 @@ func (b *BRun) Wait(opts *BOptions) *BResult {
 		}
 	}
 	// jobs of a killed mrp get SIGTERM (pdeathsig) and need a moment to record it
-	if res.Signal != "" || opts.JobKillAt > 0 {
+	// (a restart "later" means: after those monitors are gone)
+	if res.Signal != "" || opts.JobKillAt > 0 || opts.KillAt > 0 || res.Exit != 0 {
 		b.waitOrphans(3 * time.Second)
 	}
 	res.Console = b.out.String()
